@@ -653,6 +653,8 @@ class SymArray(np.ndarray):
                 base[i] = ite(m[i], v, base[i])
             return
         k = _prep_index(k)
+        if not isinstance(v, (np.ndarray, list, tuple, Sym, int, float, bool, np.generic)):
+            v = np.asarray(v)       # pandas Series and other array-likes
         if isinstance(v, np.ndarray):
             v = obj(v)
         elif isinstance(v, (list, tuple)):
@@ -972,25 +974,31 @@ def af_stack_like(func):
 
 
 def af_matmul(a, b):
+    """numpy matmul semantics (1-d promotion, batch broadcasting) on object arrays of Sym"""
     a, b = np.asarray(obj(a), dtype=object), np.asarray(obj(b), dtype=object)
-    if a.ndim == 1 and b.ndim == 1:
-        return r_sum([x * y for x, y in zip(a, b)])
-    a2 = a if a.ndim > 1 else a[None, :]
-    b2 = b if b.ndim > 1 else b[:, None]
-    if a2.ndim != 2:
-        raise EngineLimit('matmul ndim > 2 on the left')
-    # b2 (..., k, m)
-    out_shape = b2.shape[:-2] + (a2.shape[0], b2.shape[-1])
-    out = np.empty(out_shape, dtype=object)
-    for idx in np.ndindex(*b2.shape[:-2]):
-        bb = b2[idx]
-        for i in range(a2.shape[0]):
-            for j in range(bb.shape[1]):
-                out[idx + (i, j)] = r_sum([a2[i, k] * bb[k, j] for k in range(a2.shape[1])])
-    if a.ndim == 1:
+    if a.ndim == 0 or b.ndim == 0:
+        raise ValueError('matmul: Input operand does not have enough dimensions')
+    a1, b1 = a.ndim == 1, b.ndim == 1
+    a2 = a[None, :] if a1 else a
+    b2 = b[:, None] if b1 else b
+    if a2.shape[-1] != b2.shape[-2]:
+        raise ValueError('matmul: shape mismatch %s %s' % (a.shape, b.shape))
+    batch = np.broadcast_shapes(a2.shape[:-2], b2.shape[:-2])
+    A = np.broadcast_to(a2, batch + a2.shape[-2:])
+    B = np.broadcast_to(b2, batch + b2.shape[-2:])
+    n, k, m = a2.shape[-2], a2.shape[-1], b2.shape[-1]
+    out = np.empty(batch + (n, m), dtype=object)
+    for idx in np.ndindex(*batch):
+        AA, BB = A[idx], B[idx]
+        for i in range(n):
+            for j in range(m):
+                out[idx + (i, j)] = r_sum([AA[i, t] * BB[t, j] for t in range(k)]) if k else SymReal(ZERO)
+    if a1:
         out = out[..., 0, :]
-    if b.ndim == 1:
+    if b1:
         out = out[..., 0]
+    if out.ndim == 0:
+        return out[()]
     return wrap(out)
 
 
@@ -1447,3 +1455,36 @@ def _install_seq_ops():
 
 
 _install_seq_ops()
+
+
+# --------------------------------------------------------------------------
+# numpy-scalar protocol for Sym scalars (what indexing a real array down to one element returns)
+
+def _sym_as0d(self):
+    o = np.empty((), dtype=object)
+    o[()] = self
+    return wrap(o)
+
+
+def _sym_getitem(self, k):
+    if k == () or k is Ellipsis:
+        return self
+    return _sym_as0d(self)[k]
+
+
+Sym.shape = ()
+Sym.ndim = 0
+Sym.size = 1
+Sym.T = property(lambda self: self)
+Sym.__getitem__ = _sym_getitem
+Sym.copy = lambda self: self
+Sym.item = lambda self: self
+Sym.astype = lambda self, dtype, *a, **kw: (self if _dtype_kind(dtype) is None else _to_kind(self, _dtype_kind(dtype)))
+Sym.reshape = lambda self, *shape, **kw: _sym_as0d(self).reshape(*shape)
+Sym.ravel = lambda self, *a, **kw: _sym_as0d(self).reshape(1)
+Sym.flatten = lambda self, *a, **kw: _sym_as0d(self).reshape(1)
+Sym.flat = property(lambda self: FlatView(_sym_as0d(self).reshape(1)))
+Sym.any = lambda self, *a, **kw: sbool(self)
+Sym.all = lambda self, *a, **kw: sbool(self)
+Sym.squeeze = lambda self, *a, **kw: self
+Sym.strides = ()
